@@ -516,3 +516,366 @@ Definition proxy_callback (cx : ctx) (app k : Z) (args : list Z) (w : net) : net
 
 Definition app_callback (cx : ctx) (app k : Z) (args : list Z) (w : net) : net * list kc :=
   if app <? 50 then http_callback cx app k args w else proxy_callback cx app k args w.
+
+(* ================================================================== *)
+(* sim::socks_server / socks_connection (src/socks_server.cpp)          *)
+(* TCP side: handshake, request, CONNECT (address or name), BIND, the   *)
+(* reply codes, the relay loops, the command counters; UDP ASSOCIATE up  *)
+(* to its reply (datagram forwarding is not modelled).                  *)
+(* ================================================================== *)
+Definition get_socks (w : net) (srv : Z) : socks := mget (mkSocks 0 5 0 2048 [0; 0; 0] 0 false []) (w_socks w) srv.
+Definition set_socks (w : net) (srv : Z) (s : socks) : net := w <| w_socks := mset (w_socks w) srv s |>.
+Definition sconn0 : sconn := mkSconn 0 [] 0 0 [] 0.
+Definition get_sconn (w : net) (srv c : Z) : sconn := mget sconn0 (so_conns (get_socks w srv)) c.
+Definition set_sconn (w : net) (srv c : Z) (x : sconn) : net :=
+  let s := get_socks w srv in set_socks w srv (s <| so_conns := mset (so_conns s) c x |>).
+
+(* identifiers: application number 1000 + 64*srv + conn; sockets of a connection *)
+Definition so_app (srv c : Z) : Z := 1000 + 64 * srv + c.
+Definition so_base (srv c : Z) : Z := 2100000 + 8 * (64 * srv + c).
+Definition so_acc (srv : Z) : Z := 2090000 + srv.
+Definition so_client (srv c : Z) : Z := so_base srv c.
+Definition so_server (srv c : Z) : Z := so_base srv c + 1.
+Definition so_bindacc (srv c : Z) : Z := so_base srv c + 2.
+Definition so_udp (srv c : Z) : Z := so_base srv c + 3.
+Definition so_rslv (srv c : Z) : Z := so_base srv c + 4.
+Definition hid_so (srv c k : Z) : Z := hid_app (so_app srv c) k.
+
+Definition s8 (b : Z) : Z := if 128 <=? b then b - 256 else b.     (* a byte read through a plain (signed) char *)
+Definition byte_at (l : list Z) (i : nat) : Z := nth i l 0.
+Definition be16_at (l : list Z) (i : nat) : Z := byte_at l i * 256 + byte_at l (S i).
+Definition be32_at (l : list Z) (i : nat) : Z :=
+  ((byte_at l i * 256 + byte_at l (i + 1)) * 256 + byte_at l (i + 2)) * 256 + byte_at l (i + 3).
+Definition be32_bytes (v : Z) : list Z := [(v / 16777216) mod 256; (v / 65536) mod 256; (v / 256) mod 256; v mod 256].
+Definition be16_bytes (v : Z) : list Z := [(v / 256) mod 256; v mod 256].
+
+Definition socks_close_connection (cx : ctx) (srv c : Z) (w : net) : net * list kc :=
+  let (w, c0) := tcp_close cx (so_client srv c) w in
+  let (w, c1) := tcp_close cx (so_server srv c) w in
+  let (w, c2) := acc_close cx (so_bindacc srv c) w in
+  (w, c0 ++ c1 ++ c2).
+
+(* asio::async_read(client, buffer(&m_out_buffer[off], n), next) *)
+Definition socks_read_step (srv c : Z) (w : net) : net * list kc :=
+  let x := get_sconn w srv c in
+  let (w, c0) := tcp_abort_recv (so_client srv c) w in
+  let (w, c1) := tcp_async_read_impl (so_client srv c) [sc_want x - Z.of_nat (List.length (sc_got x))] (hid_so srv c 20) w in
+  (w, c0 ++ c1).
+Definition socks_read_exact (srv c : Z) (off n next : Z) (w : net) : net * list kc :=
+  let x := get_sconn w srv c in
+  socks_read_step srv c (set_sconn w srv c (x <| sc_want := n |> <| sc_off := off |> <| sc_got := [] |> <| sc_next := next |>)).
+
+Definition socks_write (cx : ctx) (srv c : Z) (data : list Z) (next : Z) (w : net) : net * list kc :=
+  start_write_all cx (so_client srv c) data 65536 (hid_so srv c next) w.
+
+(* format_response *)
+Definition socks_format_response (version : Z) (a : addr) (port response : Z) : list Z :=
+  if version =? 5 then
+    [5; response mod 256; 0] ++
+    (if a_v6 a then [4] ++ [0;0;0;0;0;0;0;0] ++ be32_bytes (a_val a / 4294967296) ++ be32_bytes (a_val a mod 4294967296)
+     else [1] ++ be32_bytes (a_val a)) ++ be16_bytes port
+  else [0; response mod 256] ++ be16_bytes port ++ be32_bytes (a_val a).
+
+Definition socks_open_forward (cx : ctx) (srv c : Z) (target : endpoint) (w : net) : net * list kc :=
+  let s := so_server srv c in
+  let '(w, c0) := if t_open (get_tcp w s) then tcp_close cx s w else (w, []) in
+  let (w, c1) := tcp_open cx s (negb (a_v6 (e_addr target))) w in
+  let (w, c2) := tcp_async_connect cx s target (hid_so srv c 8) w in
+  (w, c0 ++ c1 ++ c2).
+
+Definition socks_bind_connection (cx : ctx) (srv c : Z) (target : endpoint) (w : net) : net * list kc :=
+  let so := get_socks w srv in
+  let a := so_bindacc srv c in
+  let '(w, c0) := if t_open (get_tcp w a) then acc_close cx a w else (w, []) in
+  let (w, c1) := tcp_open cx a (negb (a_v6 (e_addr target))) w in
+  let (err, w) := tcp_bind a target w in
+  let v4 := so_version so =? 4 in
+  let response := if err =? EC_OK then (if v4 then 90 else 0) else (if v4 then 91 else 1) in
+  let ep := t_bound (get_tcp w a) in
+  let out := socks_format_response (so_version so) (e_addr ep) (e_port ep) response in
+  let (w, c2) := socks_write cx srv c out (if err =? EC_OK then 10 else 9) w in
+  (w, c0 ++ c1 ++ c2).
+
+Definition socks_udp_associate (cx : ctx) (srv c : Z) (target : endpoint) (w : net) : net * list kc :=
+  let so := get_socks w srv in
+  let u := so_udp srv c in
+  let (w, c0) := udp_open cx u true w in
+  let w := set_socks w srv (get_socks w srv <| so_bind_port := so_bind_port so + 1 |>) in
+  let (err, w) := udp_bind u {| e_addr := addr_any4; e_port := so_bind_port so mod 65536 |} w in
+  let '(w, c1) := if err =? EC_OK then
+                    let (w, ca) := udp_abort_recv u w in
+                    let (w, cb) := udp_async_recv_impl cx u [1500] true (hid_so srv c 17) w in (w, ca ++ cb)
+                  else (w, []) in
+  let ep := u_bound (get_udp w u) in
+  let response := if err =? EC_OK then 0 else 1 in
+  let out := if Z.odd (so_flags so / 2)
+             then [5; response; 0; 3; 6; 102; 111; 111; 98; 97; 114] ++ be16_bytes (e_port ep)     (* "foobar" *)
+             else socks_format_response (so_version so) (e_addr ep) (e_port ep) response in
+  let (w, c2) := socks_write cx srv c out (if err =? EC_OK then 11 else 9) w in
+  (w, c0 ++ c1 ++ c2).
+
+Definition socks_count (w : net) (srv : Z) (command : Z) : net :=
+  let so := get_socks w srv in
+  set_socks w srv (so <| so_counts := map (fun p => if fst p =? command - 1 then snd p + 1 else snd p)
+                                         (combine [0; 1; 2] (so_counts so)) |>).
+
+Definition socks_dispatch (cx : ctx) (srv c : Z) (command : Z) (target : endpoint) (w : net) : net * list kc :=
+  if command =? 1 then socks_open_forward cx srv c target w
+  else if command =? 2 then socks_bind_connection cx srv c target w
+  else if command =? 3 then
+    let t := get_tcp w (so_client srv c) in
+    let target := if addr_eqb (e_addr target) addr_any4 then
+                    match t_chan t with
+                    | Some ci => let ch := get_chan w ci in
+                                 {| e_addr := e_addr (chan_vis ch (remote_idx ch (t_bound t))); e_port := e_port target |}
+                    | None => target
+                    end
+                  else target in
+    socks_udp_associate cx srv c target w
+  else (w, []).
+
+Definition socks_start (srv c : Z) (w : net) : net * list kc :=
+  if so_version (get_socks w srv) =? 4 then socks_read_exact srv c 0 9 4 w
+  else socks_read_exact srv c 0 2 1 w.
+
+Definition socks_accept (cx : ctx) (srv : Z) (w : net) : net * list kc :=
+  let so := get_socks w srv in
+  let a := so_acc srv in let peer := so_client srv (so_nconn so) in
+  let '(w, c0) := if t_open (get_tcp w peer) then tcp_close cx peer w else (w, []) in
+  let (w, c1) := acc_abort_handlers a false w in
+  let t := get_tcp w a in
+  let w := set_tcp w a (t <| a_h := Some (hid_app (so_app srv 63) 0) |> <| a_into := Some peer |> <| a_want_ep := true |>) in
+  let (w, c2) := acc_check_queue cx a w in
+  (w, c0 ++ c1 ++ c2).
+
+Definition socks_new_conn (srv : Z) (w : net) : net :=
+  let so := get_socks w srv in
+  let c := so_nconn so in
+  let node := so_node so in
+  let w := set_tcp w (so_client srv c) (tcp_fresh node false) in
+  let w := set_tcp w (so_server srv c) (tcp_fresh node false) in
+  let w := set_tcp w (so_bindacc srv c) (tcp_fresh node true) in
+  let w := set_udp w (so_udp srv c) (udp_fresh node 0) in
+  let w := set_rslv w (so_rslv srv c) (mkRslv node []) in
+  set_sconn w srv c sconn0.
+
+Definition socks_new (cx : ctx) (srv node port version flags : Z) (w : net) : net * list kc :=
+  let a := so_acc srv in
+  let w := set_socks w srv (mkSocks node version flags 2048 [0; 0; 0] 0 false []) in
+  let w := socks_new_conn srv w in
+  let w := set_tcp w a (tcp_fresh node true) in
+  let v4 := match node_ips w node with ip :: _ => negb (a_v6 ip) | [] => true end in
+  let (w, c0) := tcp_open cx a v4 w in
+  let (_, w) := tcp_bind a {| e_addr := if v4 then addr_any4 else addr_any6; e_port := port |} w in
+  let w := set_tcp w a (get_tcp w a <| a_limit := 20 |>) in
+  let (w, c1) := socks_accept cx srv w in
+  (w, c0 ++ c1).
+
+Definition socks_stop (cx : ctx) (srv : Z) (w : net) : net * list kc :=
+  let w := set_socks w srv (get_socks w srv <| so_close := true |>) in
+  acc_close cx (so_acc srv) w.
+
+(* what on_request1 decides from the first bytes of a request (pure).  [counted]: the
+   command counter was incremented before the decision *)
+Inductive sdecision :=
+| SUndefined (marker : Z)                        (* the pinned tree: index outside m_cmd_counts *)
+| SClose (counted : bool)
+| SRead (off len next : Z)                       (* counted; read [len] more bytes at offset [off], then callback [next] *)
+| SDispatch (cmd : Z) (target : endpoint).       (* counted; SOCKS4: the request is complete *)
+
+Definition socks_request_decide (v : variant) (version : Z) (buf : list Z) : sdecision :=
+  let ver := s8 (byte_at buf 0) in
+  let command := s8 (byte_at buf 1) in
+  if negb (d30_socks_parse v) && negb ((1 <=? command) && (command <=? 3)) then SUndefined 18
+  else if negb (ver =? version) then SClose (negb (d30_socks_parse v))
+  else if version =? 4 then
+    if negb (command =? 1) && negb (command =? 2) then SClose (negb (d30_socks_parse v))
+    else if negb (byte_at buf 8 =? 0) then SClose true
+    else SDispatch command {| e_addr := {| a_v6 := false; a_val := be32_at buf 4 |}; e_port := be16_at buf 2 |}
+  else
+    if negb ((1 <=? command) && (command <=? 3)) then SClose false
+    else if negb (byte_at buf 2 =? 0) then SClose true
+    else
+      let atyp := byte_at buf 3 in
+      if atyp =? 1 then SRead 5 5 5
+      else if atyp =? 3 then (if command =? 2 then SClose true else SRead 5 (byte_at buf 4 + 2) 6)
+      else SClose true.
+
+(* the protocol state machine of one connection *)
+Definition socks_conn_step (cx : ctx) (srv c k : Z) (args : list Z) (w : net) : net * list kc :=
+  let so := get_socks w srv in
+  let x := get_sconn w srv c in
+  let buf := sc_buf x in
+  let close := socks_close_connection cx srv c in
+  let v := cv cx in
+  match k, args with
+  (* on_handshake1 *)
+  | 1, e :: n :: _ =>
+      if negb (e =? EC_OK) || negb (n =? 2) then close w
+      else if negb (byte_at buf 0 =? 4) && negb (byte_at buf 0 =? 5) then close w
+      else
+        let nm := byte_at buf 1 in
+        if negb (d30_socks_parse v) && (128 <=? nm) then (w, [KLog (TAG_FUEL, [19])])   (* read of nearly SIZE_MAX bytes *)
+        else socks_read_exact srv c 0 nm 2 w
+  (* on_handshake2 *)
+  | 2, e :: n :: _ =>
+      if negb (e =? EC_OK) then close w
+      else if negb (existsb (Z.eqb 0) (firstn (Z.to_nat n) buf)) then close w
+      else socks_write cx srv c [5; 0] 3 w
+  (* on_handshake3 *)
+  | 3, e :: n :: _ =>
+      if negb (e =? EC_OK) || negb (n =? 2) then close w
+      else socks_read_exact srv c 0 5 4 w
+  (* on_request1 *)
+  | 4, e :: n :: _ =>
+      let expected := if so_version so =? 4 then 9 else 5 in
+      if negb (e =? EC_OK) || negb (n =? expected) then close w
+      else
+        let command := s8 (byte_at buf 1) in
+        let w := set_sconn w srv c (x <| sc_cmd := command |>) in
+        match socks_request_decide v (so_version so) buf with
+        | SUndefined m => (w, [KLog (TAG_FUEL, [m])])
+        | SClose counted =>
+            socks_close_connection cx srv c (if counted then socks_count w srv command else w)
+        | SRead off len next => socks_read_exact srv c off len next (socks_count w srv command)
+        | SDispatch cmd target => socks_dispatch cx srv c cmd target (socks_count w srv command)
+        end
+  (* on_request2 *)
+  | 5, e :: n :: _ =>
+      if negb (e =? EC_OK) || negb (n =? 5) then close w
+      else socks_dispatch cx srv c (sc_cmd x) {| e_addr := {| a_v6 := false; a_val := be32_at buf 4 |}; e_port := be16_at buf 8 |} w
+  (* on_request_domain_name *)
+  | 6, e :: n :: _ =>
+      let len := byte_at buf 4 in
+      if negb (e =? EC_OK) || negb (n =? len + 2) then close w
+      else
+        let name := firstn (Z.to_nat len) (skipn 5 buf) in
+        let port := be16_at buf (Z.to_nat (5 + len)) in
+        match make_address name with
+        | Some a => rslv_resolve cx (so_rslv srv c) (RLit a) port (hid_so srv c 7) w
+        | None => rslv_resolve cx (so_rslv srv c) (RHost (host_id name)) port (hid_so srv c 7) w
+        end
+  (* on_request_domain_lookup *)
+  | 7, e :: n :: eps =>
+      if negb (e =? EC_OK) || (n =? 0) then
+        socks_write cx srv c [so_version so; 4; 0; 1; 0; 0; 0; 0; 0; 0] 9 w
+      else
+        match eps with
+        | f :: a :: pt :: _ =>
+            socks_open_forward cx srv c {| e_addr := {| a_v6 := negb (f =? 0); a_val := a |}; e_port := pt |} w
+        | _ => (w, [])
+        end
+  (* on_connected *)
+  | 8, e :: _ =>
+      if (e =? EC_ABORTED) || (e =? EC_BAD_DESCRIPTOR) then (w, [])
+      else
+        let t := get_tcp w (so_server srv c) in
+        let ep := if negb (t_open t) then ep_none
+                  else match t_chan t with
+                       | Some ci => let ch := get_chan w ci in chan_vis ch (remote_idx ch (t_bound t))
+                       | None => ep_none
+                       end in
+        let v4 := so_version so =? 4 in
+        let response := if e =? EC_OK then (if v4 then 90 else 0) else (if v4 then 91 else 5) in
+        socks_write cx srv c (socks_format_response (so_version so) (e_addr ep) (e_port ep) response)
+                    (if e =? EC_OK then 12 else 9) w
+  | 9, _ => close w
+  (* start_accept *)
+  | 10, e :: _ =>
+      if negb (e =? EC_OK) then close w
+      else
+        let a := so_bindacc srv c in
+        let t := get_tcp w a in
+        (* listen() *)
+        let w := if t_open t && negb (ep_eqb (t_bound t) ep_none) then set_tcp w a (t <| a_limit := 20 |>) else w in
+        (* async_accept(m_server_connection, on_connected) *)
+        let peer := so_server srv c in
+        let '(w, c0) := if t_open (get_tcp w peer) then tcp_close cx peer w else (w, []) in
+        let (w, c1) := acc_abort_handlers a true w in
+        let t := get_tcp w a in
+        let w := set_tcp w a (t <| a_h := Some (hid_so srv c 8) |> <| a_into := Some peer |> <| a_want_ep := false |>) in
+        let (w, c2) := acc_check_queue cx a w in
+        let (w, c3) := tcp_abort_recv (so_client srv c) w in
+        let (w, c4) := tcp_async_read_impl (so_client srv c) [65536] (hid_so srv c 13) w in
+        (w, c0 ++ c1 ++ c2 ++ c3 ++ c4)
+  (* wait_for_eof *)
+  | 11, e :: _ =>
+      if negb (e =? EC_OK) then
+        let (w, c0) := udp_close cx (so_udp srv c) w in
+        let (w, c1) := tcp_close cx (so_client srv c) w in (w, c0 ++ c1)
+      else if Z.odd (so_flags so) then tcp_close cx (so_client srv c) w
+      else
+        let (w, c0) := tcp_abort_recv (so_client srv c) w in
+        let (w, c1) := tcp_async_read_impl (so_client srv c) [65536] (hid_so srv c 11) w in (w, c0 ++ c1)
+  (* the reply of a successful CONNECT / accepted BIND is out: relay in both directions *)
+  | 12, e :: _ =>
+      if negb (e =? EC_OK) then (w, [])
+      else
+        let (w, c0) := tcp_abort_recv (so_server srv c) w in
+        let (w, c1) := tcp_async_read_impl (so_server srv c) [65536] (hid_so srv c 15) w in
+        let (w, c2) := tcp_abort_recv (so_client srv c) w in
+        let (w, c3) := tcp_async_read_impl (so_client srv c) [65536] (hid_so srv c 13) w in
+        (w, c0 ++ c1 ++ c2 ++ c3)
+  (* on_client_receive / on_client_forward *)
+  | 13, e :: _ :: _ :: _ :: data =>
+      if (e =? EC_ABORTED) || (e =? EC_BAD_DESCRIPTOR) then (w, [])
+      else if negb (e =? EC_OK) then close w
+      else start_write_all cx (so_server srv c) data 65536 (hid_so srv c 14) w
+  | 14, e :: _ =>
+      if negb (e =? EC_OK) then close w
+      else
+        let (w, c0) := tcp_abort_recv (so_client srv c) w in
+        let (w, c1) := tcp_async_read_impl (so_client srv c) [65536] (hid_so srv c 13) w in (w, c0 ++ c1)
+  (* on_server_receive / on_server_forward *)
+  | 15, e :: _ :: _ :: _ :: data =>
+      if negb (e =? EC_OK) then close w
+      else start_write_all cx (so_client srv c) data 65536 (hid_so srv c 16) w
+  | 16, e :: _ =>
+      if negb (e =? EC_OK) then close w
+      else
+        let (w, c0) := tcp_abort_recv (so_server srv c) w in
+        let (w, c1) := tcp_async_read_impl (so_server srv c) [65536] (hid_so srv c 15) w in (w, c0 ++ c1)
+  (* on_read_udp: only the aborted completion is modelled *)
+  | 17, e :: _ => if e =? EC_OK then (w, [KLog (TAG_DIAG, [17])]) else (w, [])
+  | _, _ => (w, [])
+  end.
+
+(* one async_read_some of an asio::async_read; the final handler runs inside the last one *)
+Definition socks_conn_callback (cx : ctx) (srv c k : Z) (args : list Z) (w : net) : net * list kc :=
+  let x := get_sconn w srv c in
+  match k, args with
+  | 20, e :: n :: _ :: _ :: data =>
+      let got := sc_got x ++ data in
+      let x' := x <| sc_got := got |> in
+      let finish (ec : Z) :=
+        let nb := firstn (Z.to_nat (sc_off x)) (sc_buf x) ++ got in
+        socks_conn_step cx srv c (sc_next x) [ec; Z.of_nat (List.length got)] (set_sconn w srv c (x' <| sc_buf := nb |>)) in
+      if negb (e =? EC_OK) then finish e
+      else if (n =? 0) || (sc_want x <=? Z.of_nat (List.length got)) then finish EC_OK
+      else socks_read_step srv c (set_sconn w srv c x')
+  | _, _ => socks_conn_step cx srv c k args w
+  end.
+
+(* socks_server::on_accept (connection slot 63 of the server's application number) *)
+Definition socks_on_accept (cx : ctx) (srv : Z) (args : list Z) (w : net) : net * list kc :=
+  match args with
+  | e :: _ =>
+      if negb (e =? EC_OK) then (w, [])
+      else
+        let so := get_socks w srv in
+        let c := so_nconn so in
+        let (w, c0) := socks_start srv c w in
+        let w := set_socks w srv (get_socks w srv <| so_nconn := c + 1 |>) in
+        let w := socks_new_conn srv w in
+        let (w, c1) := socks_accept cx srv w in
+        (w, c0 ++ c1)
+  | [] => (w, [])
+  end.
+
+Definition socks_callback (cx : ctx) (app k : Z) (args : list Z) (w : net) : net * list kc :=
+  let srv := (app - 1000) / 64 in let c := (app - 1000) mod 64 in
+  if (c =? 63) && (k =? 0) then socks_on_accept cx srv args w
+  else socks_conn_callback cx srv c k args w.
+
+Definition app_callback2 (cx : ctx) (app k : Z) (args : list Z) (w : net) : net * list kc :=
+  if app <? 1000 then app_callback cx app k args w else socks_callback cx app k args w.
